@@ -173,7 +173,8 @@ def run(ctx):
                     raise vk.Inconclusive("event %d (%s) exceeds the valuation budget: %s" % (line, name, r["expected"]))
                 sig = "C05:%s:%s" % (e["kind"], why)
                 if e["kind"] == "shard" and why == "equiv":
-                    sig += ":" + "+".join(sorted(atom_kinds(e["before"], e["atoms"]) & REPO_LEVEL))
+                    ks = sorted(atom_kinds(e["before"], e["atoms"]) & REPO_LEVEL)
+                    sig += (":" + "+".join(ks)) if ks else ""
                 counts[sig] += 1
                 detail = {"driver": name, "line": line, "kind": e["kind"], "why": why, "input": e["src"],
                           "before": show(e["before"], e["atoms"]),
@@ -199,9 +200,12 @@ def run(ctx):
     # a failure on a tree with several repository-level atom kinds is explained by the failure of
     # a tree with fewer of them: report the minimal kind sets only
     pre = "C05:shard:equiv:"
-    kindsets = {sig: frozenset(sig[len(pre):].split("+")) for sig in worst if sig.startswith(pre)}
-    for sig, ks in kindsets.items():
-        if any(o < ks for o in kindsets.values()):
+    kindsets = {sig: frozenset(k for k in sig[len(pre):].split("+") if k) for sig in worst if sig.startswith(pre[:-1])}
+    if any(sig.startswith("C05:simplify:") or sig.startswith("C05:evalconst:") or sig.startswith("C05:flatten:") for sig in worst):
+        # indexData.simplify ends with query.Simplify: its failures are then consequences
+        kindsets[pre + "(query.Simplify)"] = frozenset()
+    for sig, ks in list(kindsets.items()):
+        if sig in worst and any(o < ks for o in kindsets.values()):
             del worst[sig]
     for sig in sorted(worst):
         d = worst[sig][1]
@@ -234,4 +238,4 @@ def run(ctx):
                "shard_fold_classes_with_tombstones": {"%s:%s" % k: v for k, v in sorted(fold_classes.items())},
                "violation_signatures": dict(counts),
                "exhaustive_scope": "all trees with depth<=3, fan-out<=3 and <= %d nodes over the 8 leaf classes, 5 unary and 2 n-ary "
-                                   "operators; each instantiated with %d atom palette(s)" % (ctx.pick(4, 5), ctx.pick(1, 3))})
+                                   "operators; each instantiated with one of 10 atom palettes (rotating)" % ctx.pick(4, 5)})
